@@ -297,3 +297,31 @@ pub fn g1_edge_points() -> &'static Vec<(String, BigUint, BigUint)> {
         out
     })
 }
+
+/// The reference point `q` as a library G1 object in representation `kind`: 0 affine (Z = 1); 1 what the library computes itself ([k]P1 by
+/// Point::g_mul, when k is known — otherwise affine); 2 Z = 2; 3 pseudo-random Z; 4 Z whose Montgomery limbs are the plain integer 1 (field element R^-1).
+pub fn g1_in_rep(q: &Pt<Fp>, k: Option<&BigUint>, kind: u8, seed: u64) -> Point {
+    let p = r9::p_static();
+    match (kind % 5, k) {
+        (1, Some(k)) => Point::g_mul(&to_limbs(k)),
+        (2, _) => lib_g1(q, &BigUint::from(2u32)),
+        (3, _) => lib_g1(q, &(crate::refimpl::field::from_be(&crate::engine::expand_bytes(seed ^ 0x9e1, 32)) % (p - 2u32) + 2u32)),
+        (4, _) => lib_g1(q, &(rinv() % p)),
+        _ => lib_g1(q, &BigUint::one()),
+    }
+}
+
+/// Same for G2; kind 5: purely imaginary Z.
+pub fn g2_in_rep(q: &Pt<Fp2>, k: Option<&BigUint>, kind: u8, seed: u64) -> TwistPoint {
+    let p = r9::p_static();
+    let rnd = |t: u64| crate::refimpl::field::from_be(&crate::engine::expand_bytes(seed ^ t, 32)) % (p - 2u32) + 2u32;
+    let zero = BigUint::zero();
+    match (kind % 6, k) {
+        (1, Some(k)) => TwistPoint::g_mul(&to_limbs(k)),
+        (2, _) => lib_g2(q, &r9::fp2(&BigUint::from(2u32), &zero)),
+        (3, _) => lib_g2(q, &r9::fp2(&rnd(0x9e2), &rnd(0x9e3))),
+        (4, _) => lib_g2(q, &r9::fp2(&(rinv() % p), &zero)),
+        (5, _) => lib_g2(q, &r9::fp2(&zero, &rnd(0x9e4))),
+        _ => lib_g2(q, &fp2_one()),
+    }
+}
